@@ -329,6 +329,8 @@ impl C12 {
         }
         let n = *r.pick(&[10usize, 30, 70, 100, 140, 200, 300, 400]);
         let dl_every = *r.pick(&[0u64, 0, 200, 90, 40, 10]);
+        // radio errors at arbitrary call positions inside some of the procedures (each uplink still counts once)
+        let fault_pct = *r.pick(&[0u64, 0, 0, 3, 8]);
         for _ in 0..n {
             let x = r.below(1000);
             if x < 4 {
@@ -360,6 +362,9 @@ impl C12 {
                 }
             } else if r.chance(1, 30) {
                 t.rx1.push(frame_rejected(&mut r));
+            }
+            if fault_pct > 0 && r.chance(fault_pct, 100) {
+                t.fault = Some(Fault { pos: r.below(12) as u16, extra: 0 });
             }
             ops.push(Op::Send { port: 1 + (r.below(200) as u8), len: *r.pick(&[0u8, 1, 4]), confirmed: r.chance(1, 5), txn: t });
         }
